@@ -1,5 +1,5 @@
 #!/bin/bash
-# tools/seedcheck.sh <id-lower> <n> [check-ids...]
+# tools/seedcheck.sh <id-lower> <n> [check-ids...]   (SEED_VERIF=<copy of /verif>: run the checks there, so several can run side by side)
 # Confirms a seeded change produced by an isolated sub-agent in /tmp/seed/<id>/out and runs our checks against it.
 #  1. in the scratch worktree: apply m<n>.diff, full test suite must pass, demo<n>.py must fail; revert, demo must pass
 #  2. apply to /repo, run ./check <ID> quick (or the listed checks), revert /repo straight afterwards
@@ -30,7 +30,7 @@ git -C $wt apply "$out/m$n.diff" || { echo "patch does not apply"; exit 2; }
 declare -A rc
 log=""
 for c in $checks; do
-  o=$(cd /verif && VERIF_REPO=$wt timeout 1800 ./check $c quick 2>&1 | grep -v "^WARNING conda" | tail -6)
+  o=$(cd ${SEED_VERIF:-/verif} && VERIF_REPO=$wt timeout 1800 ./check $c quick 2>&1 | grep -v "^WARNING conda" | tail -6)
   r=$(echo "$o" | grep -c "^VIOLATION")
   echo "--- check $c: $r VIOLATION line(s)"; echo "$o" | tail -4
   log="$log\n[$c] $o"
